@@ -216,6 +216,27 @@ fn deserialize_str_is_parse() {
     kani::cover!(got.is_err());
 }
 
+/// ... and the glue does not depend on the LENGTH of the string either: every length up to 64 bytes (the content is fixed, the glue
+/// never looks at it and the parser is abstracted by its contract), so a length limit / fast path in the glue is noticed
+static LONG: [u8; 64] = [b'a'; 64];
+#[kani::proof]
+#[kani::unwind(67)]
+#[kani::stub(crate::parser::parse_language_identifier_from_iter, parser_oracle)]
+fn deserialize_long_str_is_parse() {
+    let n: usize = kani::any();
+    kani::assume(n <= 64);
+    let s = unsafe { std::str::from_utf8_unchecked(&LONG[..n]) };
+    let want = LanguageIdentifier::from_bytes(s.as_bytes());
+    let got = LanguageIdentifier::deserialize(StrDe(s));
+    match (&want, &got) {
+        (Ok(a), Ok(b)) => assert!(raw(a) == raw(b)),
+        (Err(_), Err(_)) => {}
+        _ => assert!(false),
+    }
+    kani::cover!(got.is_ok() && n > 40);
+    kani::cover!(got.is_err());
+}
+
 /// every non-string kind is rejected with an error; no panic is reachable
 #[kani::proof]
 #[kani::unwind(10)]
